@@ -9,7 +9,9 @@ objects) with the solver entry points replaced by recorders:
 
 * def_sol : `scipy.optimize.linprog` / `scipy.optimize.milp` (as seen by `rsome.lp` through `opt.`)
             record their arguments and return a canned `OptimizeResult`;
-* ECOS    : `ecos.solve` records its arguments and returns a canned result dict;
+* ECOS    : `ecos.solve` records its arguments and returns a canned result dict (`bool_vars_idx` /
+            `int_vars_idx` compared canonically: absent, None and [] are the same; what was literally seen
+            is counted in `branches`);
 * OR-Tools: `pywraplp.Solver.CreateSolver` is wrapped to get hold of the solver object, which is then
             read back (`variables()`, `constraints()`, `Objective()`); `Solve` really runs;
 * Gurobi  : `gurobipy.Model` is replaced by a recording proxy (arguments of `addMVar`, `addMConstr`,
@@ -137,9 +139,14 @@ def rec_ecos(c, G, h, dims, A=None, b=None, **kw):
         'c': vec(c), 'G': mat(G), 'h': vec(h),
         'dims': {'l': int(dims['l']), 'q': [int(k) for k in dims['q']], 'e': int(dims['e'])},
         'A': mat(A), 'b': vec(b),
-        'bool': [int(k) for k in kw.get('bool_vars_idx', [])],
-        'int': [int(k) for k in kw.get('int_vars_idx', [])],
+        # canonical: an absent keyword, None and [] all mean "no such variable" to ecos.solve
+        'bool': [int(k) for k in (kw.get('bool_vars_idx') or [])],
+        'int': [int(k) for k in (kw.get('int_vars_idx') or [])],
         'mixed': ('bool_vars_idx' in kw) or ('int_vars_idx' in kw)}
+    # what the wrapper literally saw for bool_vars_idx (reported in `branches`, not part of the Lean data)
+    bv = kw.get('bool_vars_idx', 'absent')
+    REC['ecos_boolkw'] = 'absent' if isinstance(bv, str) else ('None' if bv is None else
+                                                              ('[]' if len(bv) == 0 else 'nonempty'))
     REC['ecos_fmt'] = (sp.isspmatrix_csc(G), A is None or sp.isspmatrix_csc(A))
     n = len(c)
     return {'x': CANNED['x'][:n].copy(),
@@ -613,6 +620,13 @@ def main():
                                  ('norows' if iface == 'gurobi' and rec.get('A_eq') is None else
                                   'mixed' if rec.get('mixed') else 'cont'))
             hist[key] = hist.get(key, 0) + 1
+            if iface == 'ecos':
+                kk = 'ecos:bool_vars_idx:' + REC.get('ecos_boolkw', '?')
+                hist[kk] = hist.get(kk, 0) + 1
+                if rec.get('mixed'):
+                    vts = ''.join(str(v) for v in f.vtype)
+                    if 'I' in vts and 'B' in vts and vts.index('I') < vts.rindex('B'):
+                        hist['ecos:mixed:I-before-B'] = hist.get('ecos:mixed:I-before-B', 0) + 1
             if iface == 'def_sol' and rec.get('call') == 'milp':
                 # coverage of the inward rounding: non-continuous columns by the kind of bound they carry
                 for k, v in enumerate(f.vtype):
